@@ -69,9 +69,10 @@ SPEC = {
                         "set/delete of a tag is not modelled in Lean (oracle only)"],
     },
     "C04": {
-        "LEAN": {"modules": ["GfaProofs.Bridge.Regex", "GfaProofs.Lemmas.Regex", "GfaProofs.C20", "GfaProofs.Bridge.LineFmt", "GfaProofs.C04Line"],
-                 "support": ["GfaProofs.Lemmas.RegexLang", "GfaModel.Grammar", "GfaModel.Field", "GfaModel.Regex", "GfaModel.LineFmt"],
-                 "theorems": ["Gfa.C04.acceptFields_iff", "Gfa.C04.accept_rewrite", "Gfa.C04.accept_too_few", "Gfa.C04.accept_dup_tag",
+        "LEAN": {"modules": ["GfaProofs.Bridge.Regex", "GfaProofs.Lemmas.Regex", "GfaProofs.C20", "GfaProofs.Bridge.LineFmt", "GfaProofs.C04Line", "GfaProofs.C04Validate"],
+                 "support": ["GfaProofs.Lemmas.RegexLang", "GfaModel.Grammar", "GfaModel.Field", "GfaModel.Regex", "GfaModel.LineFmt", "GfaModel.Validate"],
+                 "theorems": ["Gfa.C04Validate.validate_simple", "Gfa.C04Validate.simple_virtual_iff", "Gfa.C04Validate.validate_refs_real",
+                              "Gfa.C04Validate.validate_ok_iff", "Gfa.C04.acceptFields_iff", "Gfa.C04.accept_rewrite", "Gfa.C04.accept_too_few", "Gfa.C04.accept_dup_tag",
                               "Gfa.C04.accept_predefined_type", "Gfa.Bridge.LineFmt.posfields_table", "Gfa.Bridge.LineFmt.predefined_table",
                               "Gfa.Bridge.LineFmt.classes_complete", "Gfa.RE.accepts_iff", "Gfa.C20.int_accept_iff", "Gfa.C20.accept_Z_iff", "Gfa.C20.hex_odd_rejected",
                               "Gfa.C20.accept_intStr", "Gfa.C20.numarr_range_rejected"] +
@@ -83,8 +84,13 @@ SPEC = {
                         "line-level acceptance (arity, positional datatypes, tag syntax, unique tag names, predefined tag types, the cross-field rules "
                         "LN = |sequence|, path overlap count, begin <= end) is modelled (LineFmt.acceptLine), tied by the bridged class tables "
                         "POSFIELDS/DATATYPE/PREDEFINED_TAGS and by a correspondence on valid lines and their mutations, and characterised clause by "
-                        "clause (acceptFields_iff); document-level rules (`$` only at a segment's last position, referenced identifiers defined, "
-                        "rGFA restrictions) and explicit validate() are decided by the independent python recogniser (oracle)"],
+                        "clause (acceptFields_iff)",
+                        "Gfa.validate() (placeholder segments, path links, group items, `$` positions against the sequence) is modelled "
+                        "(Validate.lean) and compared with the library on documents with lines taken away and `$` marks moved; proved: it refuses a "
+                        "segment/edge document with NotFoundError exactly when the document mentions a segment it does not define, in any order of "
+                        "the lines (validate_simple), and on a closed graph that validates every segment reference is a real line "
+                        "(validate_refs_real); the same statements for paths and groups, the `$`-against-slen rule of the specification and the rGFA "
+                        "restrictions are decided by the independent python recogniser (oracle)"],
     },
     "C06": {
         "LEAN": {"modules": ["GfaProofs.Bridge.Geometry", "GfaProofs.Bridge.Cigar", "GfaProofs.C06"],
